@@ -49,6 +49,11 @@ type c20Plan struct {
 	addr      string
 	addrErr   error
 	remoteErr error
+	// what LeaderAddr answers from the second call on (leadership may move while
+	// the request is being forwarded); laterSet=false: same as the first answer
+	laterSet  bool
+	laterAddr string
+	laterErr  error
 }
 
 type c20Fake struct {
@@ -105,7 +110,16 @@ func (f *c20Fake) Stepdown(wait bool, id string) error {
 	return f.plan.localErr
 }
 func (f *c20Fake) LeaderAddr() (string, error) {
+	n := 0
+	for _, c := range f.calls {
+		if c.Side == "leaderaddr" {
+			n++
+		}
+	}
 	f.calls = append(f.calls, c20Call{Side: "leaderaddr"})
+	if n > 0 && f.plan.laterSet {
+		return f.plan.laterAddr, f.plan.laterErr
+	}
 	return f.plan.addr, f.plan.addrErr
 }
 
@@ -186,7 +200,7 @@ func c20Exec(tag string, n int64) []*command.ExecuteQueryResponse {
 
 func TestVerif_C20_Proxy(t *testing.T) {
 	rec := vstat.New(t, "C20", "proxy",
-		"rapid: operation kind in {execute, query, request, backup, load, remove, stepdown} x generated request (0-3 statements, parameters, tx, levels, backup formats) x local outcome {ok, ErrNotLeader, wrapped ErrNotLeader, other error, ErrLeaderNotFound} x noForward x leader address {known, empty, error} x remote outcome {ok, 'unauthorized', other error, 'not leader' text} x credentials {nil, user/password} x timeout x retries; non-trivial = local store answered ErrNotLeader (forwarding decision exercised); distinct by the whole case")
+		"rapid: operation kind in {execute, query, request, backup, load, remove, stepdown} x generated request (0-3 statements, parameters, tx, levels, backup formats) x local outcome {ok, ErrNotLeader, wrapped ErrNotLeader, other error, ErrLeaderNotFound} x noForward x leader address {known, empty, error}, from the second lookup on {same, moved to another node, unknown, error} x remote outcome {ok, 'unauthorized', other error, 'not leader' / 'leadership lost while committing log' / 'leader not found' text} x credentials {nil, user/password} x timeout x retries; non-trivial = local store answered ErrNotLeader (forwarding decision exercised); distinct by the whole case")
 	rapid.Check(t, func(rt *rapid.T) {
 		op := rapid.SampledFrom([]string{"execute", "query", "request", "backup", "load", "remove", "stepdown"}).Draw(rt, "op")
 		f := &c20Fake{
@@ -214,6 +228,16 @@ func TestVerif_C20_Proxy(t *testing.T) {
 		case "error":
 			addrErr = errors.New("store not open")
 			f.plan.addrErr = addrErr
+		}
+		// leadership may move between the first lookup and any later one
+		laterKind := rapid.SampledFrom([]string{"same", "same", "moved", "moved", "unknown", "error"}).Draw(rt, "leader-later")
+		switch laterKind {
+		case "moved":
+			f.plan.laterSet, f.plan.laterAddr = true, "10.0.0.9:4002"
+		case "unknown":
+			f.plan.laterSet, f.plan.laterAddr = true, ""
+		case "error":
+			f.plan.laterSet, f.plan.laterErr = true, errors.New("store not open")
 		}
 		remoteKind := rapid.SampledFrom([]string{"ok", "ok", "unauthorized", "other", "not-leader-text", "leadership-lost-text", "leader-not-found-text"}).Draw(rt, "remote")
 		switch remoteKind {
@@ -297,7 +321,7 @@ func TestVerif_C20_Proxy(t *testing.T) {
 		}
 
 		notLeader := localKind == "notleader" || localKind == "wrapped-notleader"
-		canon := fmt.Sprintf("op=%s local=%s noForward=%v addr=%s/%q remote=%s creds=%v timeout=%v retries=%d req=%v", op, localKind, noForward, addrKind, f.plan.addr, remoteKind, creds, timeout, retries, req)
+		canon := fmt.Sprintf("op=%s local=%s noForward=%v addr=%s/%q leader-later=%s remote=%s creds=%v timeout=%v retries=%d req=%v", op, localKind, noForward, addrKind, f.plan.addr, laterKind, remoteKind, creds, timeout, retries, req)
 		rec.Case(notLeader, canon)
 		rec.Sample(canon)
 		rec.Label("op:" + op)
@@ -380,6 +404,14 @@ func TestVerif_C20_Proxy(t *testing.T) {
 		default:
 			rec.Label("path:forwarded")
 			rec.Label("remote:" + remoteKind)
+			rec.Label("leader-later:" + laterKind)
+			if len(remote) > 1 {
+				// "executed once on the leader": whatever the first forward answered, the
+				// request must not be sent a second time -- the first node may well have
+				// appended it already (e.g. "leadership lost while committing log").
+				fail("forwarded-more-than-once", "request sent to remote nodes %d times (%s then %s) after the first answered %v", len(remote), remote[0].Addr, remote[1].Addr, f.plan.remoteErr)
+				return
+			}
 			if len(remote) != 1 {
 				fail("not-forwarded-once", "remote side contacted %d times, want exactly once", len(remote))
 				return
